@@ -34,6 +34,10 @@ binding: mode A.  The records of one parameter set form a batch of peaks; the ba
          two further get_local_gv grids on seeded subsets (1/2, 1/2, 1/4, 1/3); cfx runs on a seeded third of all batches,
          the parameter-file history on a quarter, the two grain positions of al alternate.  notes["families"] counts how
          often each family was exercised (vacuity guard: >= 20 each).
+         Geometry domain: the distance of a lattice point is one of 60, 70 (forward detector), -60 (back-scattering
+         detector) and 2 (near field: the tilted detector reaches behind the sample, a translated grain lies beyond it), so
+         every route is compared with the oracle on both sides of two-theta = 90 degrees in about a third of the batches
+         (notes records_beyond_90_*; vacuity guard: >= 10 records in each of the four classes).
 tiers  : quick    = exhaustive corner set (all 256 switch combinations x both omega signs, default flip) plus
                     `tlc -simulate` of 3000 lattice points seeded by VERIF_SEED (guard: all 8 flips, both omega signs
                     and all 4 pixel-size sign pairs occurred)
@@ -141,7 +145,9 @@ def run(tier, replay=None):
     rng = np.random.default_rng(common.seed())
     seen_angles = {s: set() for s in G.SWITCHES[:5]}
     seen = {"flip": set(), "sgn": set(), "sizes": set(), "t_nonzero": 0, "eta_undefined": 0, "normlaw_in_tlc": 0,
-            "pythagorean_3": 0}
+            "pythagorean_3": 0, "beyond_90_back_scattering_detector": 0, "beyond_90_near_field_tilted": 0,
+            "beyond_90_near_field_translated": 0, "beyond_90_near_field_tilted_and_translated": 0, "beyond_90_forward_detector": 0,
+            "batches_beyond_90": 0}
     t0 = time.time()
     for gi, group in enumerate(groups):
         lengths = [None]
@@ -179,6 +185,18 @@ def run(tier, replay=None):
             npy = sum(1 for a in ("tilt_x", "tilt_y", "tilt_z", "wedge", "chi", "omega") if p[a][2] > 1)
             seen["pythagorean_3"] += npy == 3
         seen["eta_undefined"] += int((~np.isfinite(orc.eta)).sum())
+        # the geometry domain: rows beyond two-theta = 90 degrees (d_x < 0) per class of set-up
+        nb = int(orc.back.sum())
+        if nb:
+            seen["batches_beyond_90"] += 1
+            if par["dist"] < 0:
+                seen["beyond_90_back_scattering_detector"] += nb
+            elif par["dist"] < 10:
+                tilted, moved = any(par["sw"][:3]), any(par["t"])
+                seen["beyond_90_near_field_" + ("tilted_and_translated" if tilted and moved else "tilted" if tilted
+                                                else "translated")] += nb
+            else:
+                seen["beyond_90_forward_detector"] += nb
         if gi in (3, len(groups) // 2):
             chk.sample({"record": group[-1], "parameters": G.pars_of(par)})
         if len(chk.violations) > 24:
@@ -192,7 +210,7 @@ def run(tier, replay=None):
     chk.notes["flips"] = len(seen["flip"])
     chk.notes["omegasigns"] = len(seen["sgn"])
     chk.notes["pixel_size_sign_pairs"] = len(seen["sizes"])
-    for k in ("t_nonzero", "eta_undefined", "normlaw_in_tlc", "pythagorean_3"):
+    for k in sorted(k for k, v in seen.items() if isinstance(v, int)):
         chk.notes["records_" + k] = int(seen[k])
     chk.notes["routes"] = ["transform (reference)", "Ctransform + raw cImageD11 (out= buffers, reset histories)",
                            "columnfile fast/slow (histories, storage / naming variants)", "numba point_by_point",
@@ -206,6 +224,10 @@ def run(tier, replay=None):
             raise common.MachineryError("vacuity: switch %s saw only %d angle values" % (s, len(v)))
     if seen["t_nonzero"] == 0 or seen["normlaw_in_tlc"] == 0 or seen["pythagorean_3"] == 0 or seen["eta_undefined"] == 0:
         raise common.MachineryError("vacuity: %r" % (seen,))
+    for k in ("beyond_90_back_scattering_detector", "beyond_90_near_field_tilted", "beyond_90_near_field_translated",
+              "beyond_90_near_field_tilted_and_translated"):
+        if seen[k] < 10:
+            raise common.MachineryError("vacuity: only %d records with two-theta > 90 degrees in the class %s" % (seen[k], k))
     if len(seen["flip"]) != 8 or len(seen["sgn"]) != 2 or len(seen["sizes"]) != 4:
         raise common.MachineryError("vacuity: not all 8 flips x 2 omega signs x 4 pixel-size sign pairs occurred %r" % (seen,))
     for k, v in stats["families"].items():
